@@ -9,6 +9,7 @@
 package main
 
 import (
+	"io"
 	"os"
 	"context"
 	"fmt"
@@ -25,6 +26,7 @@ import (
 	"github.com/tikv/pd/server/core"
 	"github.com/tikv/pd/server/kv"
 	"go.uber.org/zap"
+	"go.uber.org/zap/zapcore"
 	"verif/engine/explore"
 	"verif/engine/hist"
 )
@@ -228,7 +230,23 @@ func mkRegion(s snap) *core.RegionInfo {
 
 // ---- the real cluster + observation ----
 
+// faultKV fails the saves of region records while failSave is set.
+type faultKV struct {
+	kv.Base
+	failSave bool
+	failed   bool
+}
+
+func (f *faultKV) Save(k, v string) error {
+	if f.failSave && strings.Contains(k, "/r/") {
+		f.failed = true
+		return fmt.Errorf("injected save failure")
+	}
+	return f.Base.Save(k, v)
+}
+
 type sys struct {
+	fk     *faultKV
 	bc     *core.BasicCluster
 	rc     *cluster.RaftCluster
 	st     *core.Storage
@@ -244,7 +262,8 @@ var rsSeq int
 
 func newSys(withIdleRegionStorage bool) *sys {
 	ctx, cancel := context.WithCancel(context.Background())
-	st := core.NewStorage(kv.NewMemoryKV())
+	fk := &faultKV{Base: kv.NewMemoryKV()}
+	st := core.NewStorage(fk)
 	if withIdleRegionStorage {
 		rsSeq++
 		dir := fmt.Sprintf("%s/verif-c06-%d-%d", tmpDir(), os.Getpid(), rsSeq)
@@ -259,7 +278,7 @@ func newSys(withIdleRegionStorage bool) *sys {
 	rc := cluster.NewRaftCluster(ctx, "/pd/7/raft", 7, nil, nil, nil)
 	bc := core.NewBasicCluster()
 	rc.InitCluster(mockid.NewIDAllocator(), config.NewTestOptions(), st, bc)
-	return &sys{rc: rc, st: st, bc: bc, cancel: cancel, maxEp: map[uint64][3]uint64{}, keyVer: map[string]uint64{}}
+	return &sys{fk: fk, rc: rc, st: st, bc: bc, cancel: cancel, maxEp: map[uint64][3]uint64{}, keyVer: map[string]uint64{}}
 }
 
 func (s *sys) close() { s.cancel() }
@@ -395,8 +414,9 @@ func (s *sys) observeList(l []*core.RegionInfo, when string, sequential bool) *h
 	if len(sc) != len(l) {
 		return &hist.Violation{Key: "scan", Msg: fmt.Sprintf("%s: ScanRegions returns %d regions, cache has %d", when, len(sc), len(l))}
 	}
-	if sequential {
-		// storage describes the same set (meta only)
+	if sequential && !s.fk.failed {
+		// storage describes the same set (meta only); not after a failed save, which the heartbeat
+		// path tolerates (the record is written again by a later heartbeat)
 		var c []string
 		for _, r := range l {
 			c = append(c, fmt.Sprintf("r%d[%q,%q)v%d.c%d.p%d", r.GetID(), r.GetStartKey(), r.GetEndKey(), r.GetRegionEpoch().GetVersion(), r.GetRegionEpoch().GetConfVer(), len(r.GetPeers())))
@@ -531,7 +551,8 @@ func sequentialOutcomes(streams [][]snap) map[string]bool {
 // ---- engine B model ----
 
 type model struct {
-	idle  bool // storage with a region storage that is not switched on
+	idle   bool // storage with a region storage that is not switched on
+	faults bool // every heartbeat also in a variant whose region save fails; pd logs to a discarding debug-level logger
 	hs    []*thist
 	maxA  int
 	cur   int
@@ -552,14 +573,39 @@ func newModelFrom(depth int, three bool) *model {
 }
 
 func (m *model) NumOps() int {
-	if len(m.hs) > m.maxA {
+	a := m.maxA
+	if m.faults {
+		a *= 2
+	}
+	if len(m.hs) > a {
 		return len(m.hs)
 	}
-	return m.maxA
+	return a
 }
+
+// msgOf: the heartbeat of operation op and whether its save fails.
+func (m *model) msgOf(msgs []snap, op int) (int, bool, bool) {
+	if op < len(msgs) {
+		return op, false, true
+	}
+	if m.faults && op >= m.maxA && op-m.maxA < len(msgs) {
+		return op - m.maxA, true, true
+	}
+	return 0, false, false
+}
+
+var discardLogger = func() *zap.Logger {
+	enc := zapcore.NewJSONEncoder(zap.NewProductionEncoderConfig())
+	return zap.New(zapcore.NewCore(enc, zapcore.AddSync(io.Discard), zapcore.DebugLevel))
+}()
+
 func (m *model) Reset() {
 	if m.s != nil {
 		m.s.close()
+	}
+	if m.faults {
+		// every log line is formatted (and thrown away), as with a debug-level log file
+		log.ReplaceGlobals(discardLogger, &log.ZapProperties{})
 	}
 	m.s = newSys(m.idle)
 	m.cur = -1
@@ -568,7 +614,8 @@ func (m *model) Enabled(op int) bool {
 	if m.cur < 0 {
 		return op < len(m.hs)
 	}
-	return op < len(m.hs[m.cur].msgs)
+	_, _, ok := m.msgOf(m.hs[m.cur].msgs, op)
+	return ok
 }
 
 // Possible implements hist.Prefilter.
@@ -576,7 +623,8 @@ func (m *model) Possible(h []int, op int) bool {
 	if len(h) == 0 {
 		return op < len(m.hs)
 	}
-	return op < len(m.hs[h[0]].msgs)
+	_, _, ok := m.msgOf(m.hs[h[0]].msgs, op)
+	return ok
 }
 
 func (m *model) OpName(op int) string {
@@ -586,8 +634,11 @@ func (m *model) OpName(op int) string {
 		}
 		return fmt.Sprintf("history#%d", op)
 	}
-	if op < len(m.hs[m.cur].msgs) {
-		return "hb " + m.hs[m.cur].msgs[op].String()
+	if i, f, ok := m.msgOf(m.hs[m.cur].msgs, op); ok {
+		if f {
+			return "hb " + m.hs[m.cur].msgs[i].String() + " [region save fails]"
+		}
+		return "hb " + m.hs[m.cur].msgs[i].String()
 	}
 	return fmt.Sprintf("hb#%d", op)
 }
@@ -596,12 +647,15 @@ func (m *model) Apply(op int) *hist.Violation {
 		m.cur = op
 		return nil
 	}
-	return m.s.deliver(m.hs[m.cur].msgs[op], true)
+	i, f, _ := m.msgOf(m.hs[m.cur].msgs, op)
+	m.s.fk.failSave = f
+	defer func() { m.s.fk.failSave = false }()
+	return m.s.deliver(m.hs[m.cur].msgs[i], true)
 }
 func (m *model) Key() string {
 	// the monotonicity trackers are part of the state: two histories that served different
 	// maxima must not be merged
-	return fmt.Sprintf("%d|%s|%v|%v", m.cur, m.s.digest(), m.s.maxEp, m.s.keyVer)
+	return fmt.Sprintf("%d|%s|%v|%v|%v", m.cur, m.s.digest(), m.s.maxEp, m.s.keyVer, m.s.fk.failed)
 }
 
 // ---- engine A: concurrent streams ----
@@ -695,8 +749,10 @@ func main() {
 			{Name: "deliver/h2/len3", Tiers: "quick", Depth: 4, NewModel: func() hist.Model { return newModel(2) }},
 			{Name: "deliver/three/h2/len4", Tiers: "quick", Depth: 5, NewModel: func() hist.Model { return newModelFrom(2, true) }},
 			{Name: "deliver/h1/len4/idle-region-storage", Tiers: "quick", Depth: 5, NewModel: func() hist.Model { m := newModel(1); m.idle = true; return m }},
+			{Name: "deliver/h1/len3/save-faults+logging", Tiers: "quick", Depth: 4, NewModel: func() hist.Model { m := newModel(1); m.faults = true; return m }},
 			{Name: "deliver/h1/len5", Tiers: "quick", Depth: 6, NewModel: func() hist.Model { return newModel(1) }},
 			{Name: "deliver/h3/len4", Tiers: "thorough", Depth: 5, NewModel: func() hist.Model { return newModel(3) }},
+			{Name: "deliver/h2/len4/save-faults+logging", Tiers: "thorough", Depth: 5, NewModel: func() hist.Model { m := newModel(2); m.faults = true; return m }},
 			{Name: "deliver/h2/len6", Tiers: "thorough", Depth: 7, NewModel: func() hist.Model { return newModel(2) }},
 		},
 		Rule: "TiKV histories (split/merge/conf-change/leader-change from 1-2 initial regions over 3 key points, with and without reported terms) are enumerated; engine B delivers every sequence with duplicates of a history's region snapshots to the real processRegionHeartbeat (first op = choice of history), engine A delivers windows of the alphabet from concurrent streams under every schedule",
